@@ -115,3 +115,71 @@ def interpolation(rep, an):
         rep.check("R-FLOW", "all interpolators evaluated on the same new domain", None if not calls else len(terms) == 1, where=res.fn.loc(),
                   construct="interpolator(new_domain)", entry=entry, config=res.config)
         R.rule_dtype_casts(rep, res, entry)
+        order_invariance(rep, res, entry)
+        grid_construction(rep, res, entry)
+
+
+def order_invariance(rep, res, entry):
+    """unsorted / descending domains are inputs of the property: the common domain (bounds, step, number of samples) must be a
+    function of the SET of sample points of every domain — min, max, sort, diff-of-sort — never of which sample is stored first or last"""
+    items = res.value.items
+    newdom = items[0] if items else res.value
+    nf = newdom.flat()
+    picks = sorted(o for o in (nf.data | nf.shp) if o.startswith("pick@"))       # values and number of grid points (not mere branching)
+    evs = {f"pick@{ev.fn.module.relpath}:{ev.node.lineno}": ev for ev in res.events("positional_pick")}
+    if picks:
+        for o in picks:
+            ev = evs.get(o)
+            rep.violated("R-FLOW", "the common domain does not depend on the storage order of the input domains", where=ev.loc if ev else res.fn.loc(),
+                         construct=ev.text() if ev else o, entry=entry, config=res.config,
+                         msg="the k-th stored sample of an input domain (first / last element, no sort) flows into the returned common domain: "
+                             "for a descending or unsorted domain the step / bounds are wrong (negative or arbitrary step)")
+    else:
+        rep.holds("R-FLOW", "the common domain does not depend on the storage order of the input domains", where=res.fn.loc(),
+                  construct="new domain returned by equalize_domains", entry=entry, config=res.config,
+                  msg="only order-invariant reductions (min, max, sort) of the input domains reach the common domain")
+
+
+def grid_construction(rep, res, entry):
+    """the common grid (i) has the number of intervals NEAREST to overlap / coarsest step — 'the step closest to the coarsest mean
+    input step that fits' — and (ii) is pinned to both ends of the overlap by construction (np.linspace with its end point), not
+    accumulated as start + k·step whose last sample is a rounded product"""
+    items = res.value.items
+    newdom = items[0] if items else res.value
+    grid_fns = {ev.fn.qual for ev in res.events("linspace")} | {ev.fn.qual for ev in res.events("int_cast")}
+    for ev in res.events("int_cast"):
+        a = ev.d["arg"]
+        if not ({"dom1", "dom2"} & (a.flat().data | a.flat().shp)):
+            continue
+        how = ev.d["how"]
+        st = None if how is None else (how == "nearest")
+        rep.check("R-VALUE", "number of grid intervals = overlap / coarsest step rounded to NEAREST", st, where=ev.loc, construct=ev.text(),
+                  entry=entry, config=res.config,
+                  msg=f"the quotient overlap / step is converted with `{how}` (towards zero / one-sided): whenever the overlap is not a "
+                      f"near-integer multiple of the coarsest step the grid has one interval too few or too many and its step is not the one "
+                      f"closest to the coarsest mean input step")
+    # judged where the grid is built: every array handed on as `new_domain` to the interpolators
+    grids = {}
+    for ev in res.events("opaque_callee"):
+        if ev.d["callee"].tag("kind") == "interp" and ev.d["args"]:
+            g = ev.d["args"][0]
+            grids[repr(g.term)] = (ev, g)
+    if not grids:
+        rep.undecided("R-VALUE", "the common grid is pinned to both ends of the overlap", where=res.fn.loc(), construct="new domain", entry=entry,
+                      config=res.config)
+    for ev, g in grids.values():
+        nf = g.flat()
+        lin = nf.tag("linspace")
+        if lin is not None:
+            rep.check("R-VALUE", "the common grid is pinned to both ends of the overlap", lin == "closed", where=ev.loc,
+                      construct=f"new domain evaluated by {ev.text()[:40]}", entry=entry, config=res.config,
+                      msg="linspace is called with endpoint=False: the common domain stops one step before the end of the overlap")
+        elif nf.tag("affine_grid"):
+            rep.violated("R-VALUE", "the common grid is pinned to both ends of the overlap", where=ev.loc,
+                         construct=f"new domain evaluated by {ev.text()[:40]}", entry=entry, config=res.config,
+                         msg="the grid is accumulated as start + k·step: its last sample is a rounded product that can exceed the overlap's end by "
+                             "one ulp — the interpolators (fill_value outside their range) then zero-fill the end sample of the limiting array, "
+                             "and the domain does not end exactly at the overlap")
+        else:
+            rep.undecided("R-VALUE", "the common grid is pinned to both ends of the overlap", where=ev.loc, construct="new domain", entry=entry,
+                          config=res.config)
